@@ -39,6 +39,10 @@ class Config:
     rule = ""
     extra_checks = ()            # callables(ctx) -> list of (kind, line, verdict) extra oracle results
     thorough_leanchecker = True
+    design_ref = "DESIGN.md section 4"
+    technique = "Lean 4 proof over executable model + differential correspondence"
+    level_text = ""
+    level_note = ""
 
 
 def load_config(pid):
